@@ -17,6 +17,8 @@ use std::panic::{catch_unwind, AssertUnwindSafe};
 
 #[derive(Clone, Debug, Default)]
 pub struct DParam {
+    /// Quantile only: build with `Default::default()` (which must be `new(0.5)`)
+    pub via_default: bool,
     pub p: f64,
     pub hist_len: usize,
     pub edges: Vec<f64>,
@@ -88,6 +90,9 @@ impl Dur for QDur {
         "Quantile".into()
     }
     fn make(p: &DParam) -> Result<Self, String> {
+        if p.via_default && p.p == 0.5 {
+            return Ok(QDur(Quantile::default()));
+        }
         Ok(QDur(Quantile::new(p.p)))
     }
     fn feed(&mut self, x: f64) {
@@ -197,6 +202,8 @@ pub struct DTrace {
     pub scenario: String,
     pub ty: String,
     #[serde(default)]
+    pub via_default: bool,
+    #[serde(default)]
     pub p: u64,
     #[serde(default)]
     pub hist_len: usize,
@@ -266,6 +273,7 @@ fn is_stream(op: &DOp) -> bool {
 fn run_d<T: Dur>(prop: DProp, tr: &DTrace, st: &mut Stats) -> Result<(), Viol> {
     let name = T::type_name();
     let param = DParam {
+        via_default: tr.via_default,
         p: f64::from_bits(tr.p),
         hist_len: tr.hist_len,
         edges: tr.edges.iter().map(|b| f64::from_bits(*b)).collect(),
@@ -356,7 +364,7 @@ fn run_d<T: Dur>(prop: DProp, tr: &DTrace, st: &mut Stats) -> Result<(), Viol> {
                 }
                 if *restored && is_node {
                     let json = side.to_json();
-                    if json.contains("null") {
+                    if crate::framework::has_nonfinite_field(&side.dbg()) {
                         st.bump("probe.checkpoint_nonfinite_skipped");
                     } else {
                         st.bump("fault.restored_merge_operand");
@@ -437,7 +445,7 @@ fn run_d<T: Dur>(prop: DProp, tr: &DTrace, st: &mut Stats) -> Result<(), Viol> {
                         return Err(Viol::new(format!("{}:serialize_modifies", name), format!("op {}: serialising changed the state", oi)));
                     }
                 }
-                if json.contains("null") {
+                if crate::framework::has_nonfinite_field(&dbg) {
                     st.bump("probe.checkpoint_nonfinite_skipped");
                     continue;
                 }
@@ -520,7 +528,7 @@ fn run_d<T: Dur>(prop: DProp, tr: &DTrace, st: &mut Stats) -> Result<(), Viol> {
             DOp::Migrate { times } => {
                 for _ in 0..*times {
                     let json = node.to_json();
-                    if json.contains("null") {
+                    if crate::framework::has_nonfinite_field(&node.dbg()) {
                         st.bump("probe.checkpoint_nonfinite_skipped");
                         break;
                     }
@@ -667,7 +675,7 @@ const P_GRID: [f64; 7] = [0.0, 1.0, 0.5, 0.25, 0.125, 0.875, 0.99];
 const ALPHABET: [f64; 4] = [0.0, 1.0, 2.0, 5.0];
 
 impl DScenario {
-    fn gen_quantile_stream(rng: &mut Rng, tier: Tier) -> (f64, Vec<f64>) {
+    fn gen_quantile_stream(rng: &mut Rng, tier: Tier, extreme_ok: bool) -> (f64, Vec<f64>) {
         let p = match rng.below(8) {
             0 => 0.0,
             1 => 1.0,
@@ -687,15 +695,29 @@ impl DScenario {
             7..=8 => 5 + rng.usize(300.min(max_len)),
             _ => 5 + rng.usize(max_len),
         };
-        let kind = rng.below(9);
+        let kind = rng.below(10);
         let alph = 2 + rng.below(3);
-        let scale = if rng.chance(0.5) { 1.0 } else { 10f64.powf(rng.f() * 40.0 - 20.0) };
-        let off = if rng.below(2) == 0 { 0.0 } else { scale * 10f64.powi(rng.below(10) as i32) };
+        // mostly moderate scales; sometimes values close to the largest / smallest finite f64
+        // (C15 only: same-sign values close to the largest / smallest finite f64; C05's
+        // relative tolerances are not meaningful where intermediate results over/underflow)
+        let extreme = extreme_ok && rng.below(8) == 0;
+        let scale = if extreme {
+            if rng.chance(0.6) {
+                10f64.powf(300.0 + rng.f() * 7.5)
+            } else {
+                10f64.powf(-300.0 - rng.f() * 7.0)
+            }
+        } else if rng.chance(0.5) {
+            1.0
+        } else {
+            10f64.powf(rng.f() * 40.0 - 20.0)
+        };
+        let off = if rng.below(2) == 0 || extreme { 0.0 } else { scale * 10f64.powi(rng.below(10) as i32) };
+        let sign = if rng.chance(0.5) { 1.0 } else { -1.0 };
         let trend = rng.normal() * 0.1;
         let data: Vec<f64> = (0..len)
             .map(|i| {
-                off + scale
-                    * match kind {
+                let z = match kind {
                         0 => rng.f(),
                         1 => rng.below(alph) as f64,
                         2 => i as f64,
@@ -717,8 +739,29 @@ impl DScenario {
                                 rng.normal() * 10.0
                             }
                         }
+                        8 => {
+                            // both signs of zero among small integers
+                            match rng.below(5) {
+                                0 => -0.0,
+                                1 => 0.0,
+                                k => k as f64 - 3.0,
+                            }
+                        }
                         _ => rng.normal(),
-                    }
+                    };
+                // kind 8 keeps the sign of zero (0.0 + -0.0 would lose it)
+                let v = if kind == 8 {
+                    z
+                } else if extreme {
+                    sign * (scale * z.abs().min(1.5))
+                } else {
+                    off + scale * z
+                };
+                if v.is_finite() {
+                    v
+                } else {
+                    f64::MAX.copysign(v)
+                }
             })
             .collect();
         (p, data)
@@ -782,7 +825,7 @@ impl DScenario {
                 ops.push(DOp::Add(ALPHABET[(code % 4) as usize].to_bits(), 0));
                 code /= 4;
             }
-            let mut t = DTrace { scenario: self.name().to_string(), ty: "Quantile".into(), p: P_GRID[pi].to_bits(), hist_len: 0, edges: vec![], ops, readable: vec![] };
+            let mut t = DTrace { scenario: self.name().to_string(), ty: "Quantile".into(), via_default: false, p: P_GRID[pi].to_bits(), hist_len: 0, edges: vec![], ops, readable: vec![] };
             refresh(&mut t);
             return t;
         }
@@ -790,11 +833,12 @@ impl DScenario {
             DProp::C05 | DProp::C15 => "Quantile",
             DProp::C18 => TYPES[rng.usize(TYPES.len())],
         };
-        let mut t = DTrace { scenario: self.name().to_string(), ty: ty.to_string(), p: 0, hist_len: 0, edges: vec![], ops: vec![], readable: vec![] };
+        let mut t = DTrace { scenario: self.name().to_string(), ty: ty.to_string(), via_default: false, p: 0, hist_len: 0, edges: vec![], ops: vec![], readable: vec![] };
         match ty {
             "Quantile" => {
-                let (p, data) = Self::gen_quantile_stream(&mut rng, tier);
+                let (p, data) = Self::gen_quantile_stream(&mut rng, tier, self.prop == DProp::C15);
                 t.p = p.to_bits();
+                t.via_default = p == 0.5 && rng.chance(0.5);
                 let ops: Vec<DOp> = data.iter().map(|x| DOp::Add(x.to_bits(), 0)).collect();
                 t.ops = Self::add_faults(&mut rng, ops);
             }
@@ -881,7 +925,7 @@ impl DScenario {
 fn refresh(t: &mut DTrace) {
     t.readable = t.ops.iter().take(64).map(short).collect();
     if t.ty == "Quantile" {
-        t.readable.insert(0, format!("Quantile::new({:e})", f64::from_bits(t.p)));
+        t.readable.insert(0, if t.via_default { "Quantile::default()".to_string() } else { format!("Quantile::new({:e})", f64::from_bits(t.p)) });
     }
 }
 
